@@ -113,6 +113,10 @@ func (c *Conversation) IsEncrypted() bool {
 // the peer and switches to unencrypted communication.
 func (c *Conversation) End() (toSend []ValidMessage, err error) {
 	previousMsgState := c.msgState
+	if c.msgState != plainText {
+		// the text remembered for retransmission belongs to the session that ends here
+		c.resend.clear()
+	}
 	if c.msgState == encrypted {
 		c.smp.wipe()
 		// Error can only happen when Rand reader is broken
